@@ -12,7 +12,11 @@ require (
 	github.com/EliCDavis/bitlib v1.2.0 // indirect
 	github.com/EliCDavis/iter v1.0.2 // indirect
 	github.com/EliCDavis/jbtf v0.2.0 // indirect
+	github.com/EliCDavis/sfm v1.2.0 // indirect
+	github.com/fogleman/gg v1.3.0 // indirect
+	github.com/golang/freetype v0.0.0-20170609003504-e2365dfdc4a0 // indirect
 	github.com/gorilla/websocket v1.5.3 // indirect
+	golang.org/x/image v0.18.0 // indirect
 )
 
 replace github.com/EliCDavis/polyform => /repo
